@@ -19,7 +19,7 @@ func (c08) Budget(tier string) (int, int) {
 	if tier == "thorough" {
 		return 5000000, 600
 	}
-	return 50000, 25
+	return 40000, 90
 }
 func (c08) Rule() string {
 	return "seeded scenarios: one document and 2-6 composition decoders written only against the public API (peek NextTokenType; per member a tape-chosen strategy: typed reader [ReadString/ReadStringBytes/DecodeString, ReadFloat64/DecodeFloat64, ReadInt64/ReadUint64 with float fallback, ReadBool/DecodeBool, ReadNull], generic ReadValue/ReadObject/ReadArray on the member, SkipValue, SkipValueFast, return 0, or a nested HandleArrayValues/HandleObjectValues traversal with the decoder itself as handler; Buffer pattern nil / one Buffer shared re-entrantly at all depths / one per depth), always returning the offset the callee reported. Oracle (self-differential): direct ReadValue on the same bytes - same final offset for every decoder, deep-equal tree (floats by bit pattern) for read-everything decoders, and read-everything decoders must fail where direct decoding fails for a reason other than the depth limit. Non-trivial: the decoder took at least one per-member decision inside a traversal; distinct = distinct hashes of (document class, strategy sequence, buffer pattern, outcome)."
